@@ -4,6 +4,9 @@ package main
 // Injected with `go test -overlay` (nothing is written to /repo).
 
 import (
+	"crypto"
+	"crypto/ed25519"
+	"crypto/rand"
 	"crypto/x509"
 	"net"
 	"encoding/hex"
@@ -322,6 +325,84 @@ func TestVerifReplayTOTPLockoutEscalation(t *testing.T) {
 	if !ok && err == nil && rec.failCount%5 == 0 && rec.failCount > 0 && time.Until(rec.lockoutExpirationTime) < 59*time.Minute {
 		t.Logf("REPLAY-CONFIRMED: no lock-out after the fifth failure")
 	} else {
+		t.Logf("REPLAY-NOT-REPRODUCED")
+	}
+}
+
+// C09: /readyz answers 200 exactly when the CA signer is loaded. The model of a failed obligation fixes
+// which of the two signer fields are nil; the four combinations are all replayed.
+func TestVerifReplayReadyz(t *testing.T) {
+	state, passwdFile, err := setupValidRuntimeStateSigner(t)
+	if err != nil {
+		t.Fatal(err)
+	}
+	defer os.Remove(passwdFile.Name())
+	signer := state.Signer
+	confirmed := false
+	for _, signerNil := range []bool{true, false} {
+		for _, edNil := range []bool{true, false} {
+			state.Signer, state.Ed25519Signer = nil, nil
+			if !signerNil {
+				state.Signer = signer
+			}
+			if !edNil {
+				state.Ed25519Signer = signer
+			}
+			rr := httptest.NewRecorder()
+			state.readyzHandler(rr, httptest.NewRequest("GET", "/readyz", nil))
+			t.Logf("Signer nil=%v Ed25519Signer nil=%v -> status %d", signerNil, edNil, rr.Code)
+			if (rr.Code == 200) != !signerNil {
+				t.Logf("REPLAY-CONFIRMED: readiness %d while the CA signer is nil=%v", rr.Code, signerNil)
+				confirmed = true
+			}
+		}
+	}
+	if !confirmed {
+		t.Logf("REPLAY-NOT-REPRODUCED")
+	}
+}
+
+// C09: after the signers are loaded, the published key list contains both signing keys. Scenario of the
+// model: one of the signers' public keys is already in the list when signerPublicKeyToKeymasterKeys runs.
+func TestVerifReplayPublishedKeys(t *testing.T) {
+	state, passwdFile, err := setupValidRuntimeStateSigner(t)
+	if err != nil {
+		t.Fatal(err)
+	}
+	defer os.Remove(passwdFile.Name())
+	_, edPriv, err := ed25519.GenerateKey(rand.Reader)
+	if err != nil {
+		t.Fatal(err)
+	}
+	confirmed := false
+	for _, pre := range []string{"none", "ed25519", "signer", "both"} {
+		state.Ed25519Signer = edPriv
+		state.KeymasterPublicKeys = nil
+		if pre == "ed25519" || pre == "both" {
+			state.KeymasterPublicKeys = append(state.KeymasterPublicKeys, edPriv.Public())
+		}
+		if pre == "signer" || pre == "both" {
+			state.KeymasterPublicKeys = append(state.KeymasterPublicKeys, state.Signer.Public())
+		}
+		if err := state.signerPublicKeyToKeymasterKeys(); err != nil {
+			t.Fatal(err)
+		}
+		has := func(k crypto.PublicKey) bool {
+			want, _ := getKeyFingerprint(k)
+			for _, p := range state.KeymasterPublicKeys {
+				if fp, _ := getKeyFingerprint(p); fp == want {
+					return true
+				}
+			}
+			return false
+		}
+		t.Logf("already published: %s -> %d keys published, signer=%v ed25519=%v", pre, len(state.KeymasterPublicKeys), has(state.Signer.Public()), has(edPriv.Public()))
+		if !has(state.Signer.Public()) || !has(edPriv.Public()) {
+			t.Logf("REPLAY-CONFIRMED: a signing key is missing from the published keys")
+			confirmed = true
+		}
+	}
+	if !confirmed {
 		t.Logf("REPLAY-NOT-REPRODUCED")
 	}
 }
